@@ -31,7 +31,7 @@ TIED = {
  "C06": "space_utils.is_subspace / intersect, expand_to_target.py and its public wrapper, control.find_drivers / drivers_of_succession / successions_to_target / succession_control",
  "C07": "control.find_drivers / drivers_of_succession / succession_control",
  "C08": "attractor_candidates.make_heuristic_retained_set / asp_greedy_retained_set_optimization",
- "C09": "trappist_core._clingo_model_to_space / _clingo_model_to_fixed_point (polarity of the answer-set readers)",
+ "C09": "trappist_core._clingo_model_to_space / _clingo_model_to_fixed_point (polarity of the answer-set readers), the solution-limit handling of trappist / compute_fixed_point_reduced_STG",
  "C10": "petri_net_translation.variable_to_place / place_to_variable",
  "C11": "space_utils.percolate_space_strict / percolation_conflicts, drivers.find_single_node_LDOIs / find_single_drivers",
  "C12": "attractor_symbolic.compute_attractors_symbolic (the candidate filter loop)",
